@@ -484,6 +484,20 @@ def rule_guard(ctx, repo, ci):
                 r.violated('%s:modulo-guard' % nm, common.site_of(fi, c), '%s reaches bloom_hash (modulo len(vData)*8) without an emptiness guard: a filter with empty data, as can arrive from the wire, raises ZeroDivisionError' % nm)
         if ok:
             r.ok('%s:modulo-guard' % nm, fi.site, 'bloom_hash reached only when len(vData) != 0')
+        # a byte of the data read by a literal index: the data must be known to be that long there (an empty filter can
+        # arrive from the wire)
+        for n in ast.walk(fi.node):
+            if isinstance(n, ast.Subscript) and isinstance(n.ctx, ast.Load) and norm(n.value) == 'self.vData' and isinstance(n.slice, ast.Constant) \
+                    and type(n.slice.value) is int and n.slice.value >= 0:
+                v_ = implied_at(repo, fi, n, 'len(self.vData) > %d' % n.slice.value)
+                k_ = '%s:indexed-byte:%d' % (nm, n.slice.value)
+                if v_ is True:
+                    r.ok(k_, common.site_of(fi, n), 'read only where the data is that long')
+                elif v_ is False:
+                    r.violated(k_, common.site_of(fi, n), '%s reads self.vData[%d] where the data can be empty (the tests in front of it admit a length of 0): an empty filter, as can arrive from the wire, raises IndexError'
+                               % (nm, n.slice.value), sure=True)
+                else:
+                    r.undecided(k_, common.site_of(fi, n), '%s reads self.vData[%d]; that the data is long enough there was not established' % (nm, n.slice.value))
         empties = [(k, n) for k, n, f in mf.exits if 'empty' in f and k == 'return']
         if nm == 'contains':
             good = empties and all(norm(n.value) == 'True' for k, n in empties)
